@@ -30,6 +30,9 @@ LineOk(e) ==
     /\ e.mld2K = e.d2K
 LenOk(e) == /\ e.ev = "line" /\ e.out = "ok" /\ IntegerSegments(cs.path)
             /\ e.lenexact /\ e.len = PathLen(cs.path, 1) /\ e.oplen = e.len /\ e.mllen = e.len + PathLen(SubSeq(cs.path, 1, 2), 1)
+BoxOk(e) == /\ e.ev = "box" /\ e.out = "ok"
+            /\ e.cen2 = <<cs.min[1] + cs.max[1], cs.min[2] + cs.max[2]>>                 \* twice the centre, exactly
+            /\ (cs.sh < 100 => e.area = (cs.max[1] - cs.min[1]) * (cs.max[2] - cs.min[2]))
 BufferOk(e) ==
     LET r2K == cs.r * cs.r * 1000000 IN        \* Buffer observations are quantised to 1e-6
     /\ e.ev = "buffer" /\ e.out = "ok"
@@ -43,7 +46,7 @@ BufferOk(e) ==
 NearOk(e) == /\ e.ev = "near" /\ e.out = "ok"
              /\ cs.d2 = Dist2PointSeg(cs.q, cs.path[1], cs.path[2])
              /\ e.errscale12 <= 100 /\ e.mlerrscale12 <= 100
-Ok(e) == CASE cs.kind = "shape" -> ShapeOk(e) [] cs.kind = "near" -> NearOk(e) [] cs.kind = "line" -> LineOk(e) [] cs.kind = "len" -> LenOk(e) [] cs.kind = "buffer" -> BufferOk(e) [] OTHER -> FALSE
+Ok(e) == CASE cs.kind = "shape" -> ShapeOk(e) [] cs.kind = "near" -> NearOk(e) [] cs.kind = "line" -> LineOk(e) [] cs.kind = "len" -> LenOk(e) [] cs.kind = "box" -> BoxOk(e) [] cs.kind = "buffer" -> BufferOk(e) [] OTHER -> FALSE
 Apply(e) == UNCHANGED cs
 Reset(e) == cs' = e
 Keep == UNCHANGED cs
